@@ -34,7 +34,7 @@ type c20Case struct {
 	Fail     bool     `json:"handler_fails"`
 }
 
-var c20AllPatterns = []string{"/", "/api", "/api/", "/pfx/", "/twirp", "/api/v2"}
+var c20AllPatterns = []string{"/", "/api", "/api/", "/pfx/", "/twirp", "/api/v2", "/t", "/vs.T/"}
 
 type c20Env struct {
 	t    *tSchema
@@ -244,7 +244,7 @@ func c20PatternSets() [][]string {
 func c20Cases(thorough bool) []c20Case {
 	var out []c20Case
 	inner := []string{"/t/unary", "/t/unary/x", "/vs.T/Unary", "/nope", "/t/unary/", "/t/unary/x/", "/vs.T/Nope", "/"}
-	prefixes := []string{"", "/api", "/pfx", "/twirp", "/api/v2", "/other", "/apix", "/API"}
+	prefixes := []string{"", "/api", "/pfx", "/twirp", "/api/v2", "/other", "/apix", "/API", "/t", "/vs.T"}
 	extras := [][]string{nil, {"/extra"}, {"/api/extra/"}, {"/extra", "/pfx/sub/"}}
 	for _, ps := range c20PatternSets() {
 		for _, ex := range extras {
@@ -252,9 +252,15 @@ func c20Cases(thorough bool) []c20Case {
 				continue
 			}
 			for _, pre := range prefixes {
-				for _, in := range inner {
+				ins := inner
+				if pre != "" {
+					// inner paths in which the text of the prefix occurs again: the mount must
+					// strip the leading occurrence only
+					ins = append(append([]string{}, inner...), pre+"/t/unary", pre+"/vs.T/Unary", "/t/unary"+pre, "/t"+pre+"/unary", pre+pre+"/t/unary")
+				}
+				for _, in := range ins {
 					for _, pr := range []string{"get", "post", "twirp", "grpc", "web"} {
-						if (pr == "grpc" || pr == "web" || pr == "twirp") && !strings.HasPrefix(in, "/vs.T/") && in != "/nope" {
+						if (pr == "grpc" || pr == "web" || pr == "twirp") && !strings.Contains(in, "/vs.T/") && in != "/nope" {
 							continue
 						}
 						p := pre + in
@@ -281,7 +287,7 @@ func c20Cases(thorough bool) []c20Case {
 
 func runC20(c *Ctx) {
 	r := c.Run
-	r.Rule("every set of <= 3 mount patterns from {/, /api, /api/, /pfx/, /twirp, /api/v2} (plus the default) that http.ServeMux accepts × extra handlers {none, /extra, /api/extra/, /extra + /pfx/sub/} × request prefix {none, each mount, /other, /apix, /API} × inner path {rule route, rule route with variable, implicit route, unmatched, trailing slash variants, unknown method, /} × protocol {GET, POST json, Twirp, gRPC, gRPC-web} × handler {ok, NotFound}; the response through NewServer's handler is compared with the bare mux on the stripped path; distinct = all case parameters")
+	r.Rule("every set of <= 3 mount patterns from {/, /api, /api/, /pfx/, /twirp, /api/v2, /t, /vs.T/} (plus the default; the last two coincide with the first segment of the mux's own routes) that http.ServeMux accepts × extra handlers {none, /extra, /api/extra/, /extra + /pfx/sub/} × request prefix {none, each mount, /other, /apix, /API} × inner path {rule route, rule route with variable, implicit route, unmatched, trailing slash variants, unknown method, /, and paths in which the prefix text occurs again: prefix+route, route+prefix, prefix inside the route, doubled prefix} × protocol {GET, POST json, Twirp, gRPC, gRPC-web} × handler {ok, NotFound}; the response through NewServer's handler is compared with the bare mux on the stripped path; distinct = all case parameters")
 	r.Assume("unclean paths ('//', '.', '..') and the bare prefix without a trailing slash are redirected by http.ServeMux and not demanded", "pattern sets that http.ServeMux rejects (both /api and /api/) are skipped")
 	cases := c20Cases(c.Thorough())
 	envs := make([]*c20Env, explore.Workers)
